@@ -182,9 +182,17 @@ def run(ctx):
     xdocs = []
     for _ in range(nx):
         d = gen_elem(rng, 0)
+        dtd = ""
+        if rng.random() < 0.1:
+            # an internal DTD subset declaring general entities that the text uses: their replacement text is text like any other
+            import re as _re
+            m_ = _re.match(r"<([^\s>/]+)", d)
+            j_ = d.index(">")
+            d = d[:j_ + 1] + rng.choice(["&org; ", " by &org;2020 ", "&unit;"]) + d[j_ + 1:]
+            dtd = f'<!DOCTYPE {m_.group(1)} [<!ENTITY org "ACME  Corp"><!ENTITY unit "m\xa0s">]>\n'
         # a well-formed document may start with an XML declaration (with or without an encoding) and a comment
         d = rng.choice(["", "", "", '<?xml version="1.0"?>', '<?xml version="1.0" encoding="UTF-8"?>\n', "<?xml version='1.0' encoding='utf-8' standalone='yes'?>",
-                        "<!-- header -->\n"]) + d
+                        "<!-- header -->\n"]) + dtd + d
         xdocs.append(d)
         w = judge_xml(d)
         if w:
